@@ -9,3 +9,8 @@ CHECKS["C09"] = dict(
  text="The WriteAt/Sync program of the real gpt.Table.Write is recorded per (old,new) table pair and becomes the writer of GptCrash.tla (device with volatile cache, Sync, power cut persisting any subset of in-flight sectors). TLC explores every prefix x subset (exhaustive up to 12 in-flight sectors, generating family above), and every crash state it reaches is materialised on a real image and read with the real gpt.Read and partition.Read; GptCrash_Trace judges each outcome (exactly old or exactly new; new from primary when done) and compares it with the model's ReadBack.",
  note="Assumes atomic logical-sector writes and that Sync is a barrier; CRC collisions of mixed arrays are not modelled (the real reader is executed). A model/real disagreement that does not violate the property is reported as MODEL-DRIFT (exit 2).",
  technique="TLA+ crash model with recorded write program + TLC-enumerated crash states replayed on the real reader + trace validation")
+CHECKS["C02"] = dict(
+ level="model_checking",
+ text="PartTable.tla writes the table input space down as boundary-class tuples; TLC enumerates every tuple within 2 (quick) / 3+ (thorough) deviations of the base tuple; each is concretised into a real gpt/mbr table, written with Disk.Partition onto a sparse in-memory disk (up to 3 TiB, 512/4096-byte sectors, over blank/GPT/MBR), read back from the bytes alone, parsed by an independent parser (own CRC32/GUID decoding), and the recorded events are judged by TLC against P_C02 (round trip, GetPartition ranges, on-disk validity).",
+ note="Trusted: TLC, rawpt parser, memdev. Numbers >= 2^31 travel as decimal strings (TLC ints are 32-bit) and are only compared. Refusals are never violations (the statement speaks of tables Write accepts); panics are.",
+ technique="TLA+ input-class spec + TLC tuple enumeration + trace validation of recorded write/read-back events")
